@@ -929,6 +929,29 @@ pub fn rec_expiry(args: &Args) {
         let u1 = mkreq(&ReqSpec { code: 3, typ: 0, mid: next_mid(), tok: vec![5], segs: &up, b1: Some((1, false, 0)), b2: None, pay: vec![7, 7], extra: vec![] });
         run_step(&mut h, &mut out, &json!({"op": "ireq", "ep": "sleeper", "req": jpkt(&u1), "app": {"some": true, "v": {"code": 0x44, "pay": [], "opts": []}}}), &json!({"kind": "expiry-follow"}));
     }
+    // expiry under traffic: while the entry sits idle for five times its expiry, other keys keep
+    // starting block-wise transfers at intervals shorter than the expiry; the idle entry must still expire
+    for ttl in if thorough { vec![40u64, 60, 100] } else { vec![60u64] } {
+        let mut h = H::new(&mut out, 1152, ttl, start);
+        let tag = json!({"kind": "expiry-traffic", "ttl": ttl});
+        let body = body_bytes(100, 6);
+        let p0 = mkreq(&ReqSpec { code: 1, typ: 0, mid: next_mid(), tok: vec![1], segs: &seg, b1: None, b2: Some((0, false, 0)), pay: vec![], extra: vec![] });
+        run_step(&mut h, &mut out, &json!({"op": "ireq", "ep": "sleeper", "req": jpkt(&p0), "app": {"some": true, "v": {"code": 0x45, "pay": jbytes(&body), "opts": []}}}), &tag);
+        let u0 = mkreq(&ReqSpec { code: 3, typ: 0, mid: next_mid(), tok: vec![2], segs: &up, b1: Some((0, true, 0)), b2: None, pay: body_bytes(16, 9), extra: vec![] });
+        run_step(&mut h, &mut out, &json!({"op": "ireq", "ep": "sleeper", "req": jpkt(&u0), "app": {"some": false}}), &tag);
+        let t_end = Instant::now() + Duration::from_millis(ttl * 5);
+        let mut i = 0usize;
+        while Instant::now() < t_end {
+            i += 1;
+            let o = mkreq(&ReqSpec { code: 1, typ: 0, mid: next_mid(), tok: vec![3], segs: &[format!("busy{}", i % 7).into_bytes()], b1: None, b2: Some((0, false, 0)), pay: vec![], extra: vec![] });
+            run_step(&mut h, &mut out, &json!({"op": "ireq", "ep": "busy", "req": jpkt(&o), "app": {"some": true, "v": {"code": 0x45, "pay": jbytes(&body_bytes(48, i)), "opts": []}}}), &json!({"kind": "expiry-traffic-other"}));
+            run_step(&mut h, &mut out, &json!({"op": "sleep", "ms": ttl / 4}), &tag);
+        }
+        let p1 = mkreq(&ReqSpec { code: 1, typ: 0, mid: next_mid(), tok: vec![4], segs: &seg, b1: None, b2: Some((1, false, 0)), pay: vec![], extra: vec![] });
+        run_step(&mut h, &mut out, &json!({"op": "ireq", "ep": "sleeper", "req": jpkt(&p1), "app": {"some": true, "v": {"code": 0x45, "pay": jbytes(&body_bytes(40, 8)), "opts": []}}}), &json!({"kind": "expiry-traffic-follow"}));
+        let u1 = mkreq(&ReqSpec { code: 3, typ: 0, mid: next_mid(), tok: vec![5], segs: &up, b1: Some((1, false, 0)), b2: None, pay: vec![7, 7], extra: vec![] });
+        run_step(&mut h, &mut out, &json!({"op": "ireq", "ep": "sleeper", "req": jpkt(&u1), "app": {"some": true, "v": {"code": 0x44, "pay": [], "opts": []}}}), &json!({"kind": "expiry-traffic-follow"}));
+    }
     // reclamation: abandoned transfers on distinct endpoints; idle; one unrelated call; nothing left alive
     for n in if thorough { vec![1usize, 5, 20, 50] } else { vec![1usize, 12] } {
         let ttl = 30u64;
